@@ -260,6 +260,64 @@ fn adaptors(p: &Params, got: &[SliderEvent], shared: &mut Vec<SliderEvent>, salt
             }
         }
     }
+    // a partially consumed iterator handed to every bulk consumer of the Iterator trait (each is a provided method a
+    // type may override): after k calls of next() the rest must be exactly got[k..]
+    {
+        let n = got.len();
+        let mut ks: Vec<usize> = vec![0, 1, 2, 3, n / 2, n.saturating_sub(2), n.saturating_sub(1), n, (salt * 5 + 1) % (n + 1), (salt * 11 + 3) % (n + 1)];
+        ks.sort_unstable();
+        ks.dedup();
+        for (j, &k) in ks.iter().enumerate() {
+            if k > n {
+                continue;
+            }
+            let mut it = SliderEventsIter::new(p.start, p.dur, p.vel, p.tick_dist, p.total, p.spans, shared);
+            for _ in 0..k {
+                let _ = it.next();
+            }
+            let want = &got[k..];
+            let (how, rest): (&str, Vec<SliderEvent>) = match (j + salt) % 6 {
+                0 => ("fold", it.fold(Vec::new(), |mut v, e| {
+                    v.push(e);
+                    v
+                })),
+                1 => {
+                    let mut v = Vec::new();
+                    it.for_each(|e| v.push(e));
+                    ("for_each", v)
+                }
+                2 => ("collect", it.collect()),
+                3 => {
+                    let c = it.count();
+                    if c != want.len() {
+                        return Err(format!("count: after {k} calls of next() count() is {c}, {} events remained", want.len()));
+                    }
+                    continue;
+                }
+                4 => {
+                    let mut v = Vec::new();
+                    let r: Result<(), ()> = it.try_for_each(|e| {
+                        v.push(e);
+                        Ok(())
+                    });
+                    let _ = r;
+                    ("try_for_each", v)
+                }
+                _ => {
+                    let mut v = Vec::new();
+                    let mut pk = it.by_ref().peekable();
+                    while let Some(e) = pk.next() {
+                        v.push(e);
+                    }
+                    ("by_ref+peekable", v)
+                }
+            };
+            if rest.len() != want.len() || rest.iter().zip(want).any(|(a, b)| !same(a, b)) {
+                let at = rest.iter().zip(want).position(|(a, b)| !same(a, b)).unwrap_or(rest.len().min(want.len()));
+                return Err(format!("bulk-consumer: after {k} calls of next(), {how} delivered {} events, {} remained; first difference at +{at}: {:?} vs {:?}", rest.len(), want.len(), rest.get(at), want.get(at)));
+            }
+        }
+    }
     {
         let it = SliderEventsIter::new(p.start, p.dur, p.vel, p.tick_dist, p.total, p.spans, shared);
         let n = it.count();
